@@ -118,6 +118,7 @@ type Machine struct {
 	freeForks    int
 	fnCache      map[*ssa.Function]*fnInfo
 	freezeStop   map[interface{}]bool
+	lazy         bool
 }
 
 func NewMachine(sh *Shared, solver *Solver) *Machine {
@@ -265,7 +266,9 @@ func (m *Machine) branch(c *Term) bool {
 		}
 		panic(fmt.Sprintf("decision prefix out of sync: got choice code %d at a branch (%s)", d, m.pos()))
 	}
-	if m.freeBoolVar(c) {
+	if m.lazy || m.freeBoolVar(c) {
+		// lazy mode: fork without asking the solver. Infeasible paths can only add
+		// vacuous passes: a failure still needs a model (and a native replay).
 		alt := make([]int32, len(m.taken)+1)
 		copy(alt, m.taken)
 		alt[len(m.taken)] = dFalse
@@ -363,12 +366,20 @@ func (m *Machine) currentModel() map[string]string {
 	if m.replayVals != nil {
 		return m.replayVals
 	}
-	if len(m.inputs) == 0 {
+	if len(m.inputs) == 0 && len(m.pc) == 0 {
 		return map[string]string{}
 	}
 	r, model := m.solver.Check(m.ts, nil, m.inputTerms())
+	if r == Unsat {
+		// the path condition is infeasible (possible under lazy branching or after
+		// solver unknowns): nothing on this path is real
+		panic(pathEnd{"infeasible"})
+	}
 	if r != Sat {
 		return nil
+	}
+	if model == nil {
+		model = map[string]string{}
 	}
 	return m.typedModel(model)
 }
@@ -549,7 +560,7 @@ func (m *Machine) RunPath(entry *ssa.Function, args []value, prefix []int32, max
 			case pathEnd:
 				if p.reason == "failed" {
 					res.Status = "failed"
-				} else if p.reason == "assumed-away" {
+				} else if p.reason == "assumed-away" || p.reason == "infeasible" {
 					res.Status = "assumed-away"
 				} else {
 					res.Status = "undecided"
@@ -557,7 +568,11 @@ func (m *Machine) RunPath(entry *ssa.Function, args []value, prefix []int32, max
 				}
 			case targetPanic:
 				msg := panicMessage(p.v)
-				model := m.currentModel()
+				model, infeasible := m.safeModel()
+				if infeasible {
+					res.Status = "assumed-away"
+					return
+				}
 				if model == nil {
 					res.Status = "undecided"
 					res.Reason = "panic on a path whose condition could not be solved: " + msg
@@ -567,7 +582,11 @@ func (m *Machine) RunPath(entry *ssa.Function, args []value, prefix []int32, max
 				m.fail("panic", "panic", msg, model)
 				res.Status = "failed"
 			case hang:
-				model := m.currentModel()
+				model, infeasible := m.safeModel()
+				if infeasible {
+					res.Status = "assumed-away"
+					return
+				}
 				if model == nil {
 					res.Status = "undecided"
 					res.Reason = "hang on unsolved path: " + p.what
@@ -593,8 +612,13 @@ func (m *Machine) RunPath(entry *ssa.Function, args []value, prefix []int32, max
 		m.initTargetGlobals()
 		m.call(nil, token.NoPos, entry, args)
 	}()
-	if res.Status == "ok" && m.wantWitness && m.replayVals == nil && len(m.inputs) > 0 {
-		res.Witness = m.currentModel()
+	if res.Status == "ok" && (m.wantWitness || m.lazy) && m.replayVals == nil && len(m.inputs) > 0 {
+		w, infeasible := m.safeModel()
+		if infeasible {
+			res.Status = "assumed-away"
+		} else if m.wantWitness {
+			res.Witness = w
+		}
 	}
 	res.Failures = m.failures
 	res.Pending = m.pending
@@ -606,6 +630,20 @@ func (m *Machine) RunPath(entry *ssa.Function, args []value, prefix []int32, max
 	res.Observed = m.observed
 	res.Taken = append([]int32(nil), m.taken...)
 	return
+}
+
+// safeModel is currentModel for use inside the recover handler.
+func (m *Machine) safeModel() (model map[string]string, infeasible bool) {
+	defer func() {
+		if r := recover(); r != nil {
+			if pe, ok := r.(pathEnd); ok && pe.reason == "infeasible" {
+				infeasible = true
+				return
+			}
+			panic(r)
+		}
+	}()
+	return m.currentModel(), false
 }
 
 func panicMessage(v value) string {
